@@ -115,6 +115,9 @@ def align(script, transcript):
                                                    (i >= len(transcript) or not transcript[i].startswith("S "))):
                     break
         else:
+            if op.startswith("lex "):
+                while i < len(transcript) and transcript[i].startswith("K "):
+                    i += 1
             if i < len(transcript) and transcript[i].startswith("R "):
                 chunk.append(transcript[i])
                 i += 1
@@ -1424,3 +1427,96 @@ def run_c03(ctx):
 
 
 REGISTRY["C03"] = dict(module="Properties_C03", run=run_c03, extra_obligations=["nonnull_checked", "first_byte_checked"])
+
+
+# ------------------------------------------------------------------------------------------
+# C08: numeric literals
+
+def c08_expect(lit):
+    """(type, 'val', fmt) the documentation assigns to the literal, or None when it must be rejected, or
+    'skip' when the text is not a single numeric literal"""
+    toks = speclex.tokens(lit)
+    ks = [t for t in toks if t.startswith("K ")]
+    if len(ks) == 1 and ks[0].startswith("K E"):
+        return None
+    if len(ks) != 2 or not ks[1].startswith("K Z"):
+        return "skip"
+    k = ks[0].split(" ")[1]
+    if k[0] == "i":
+        return (2, k, 0)
+    if k[0] == "l":
+        return (3, k, 0)
+    if k[0] == "x":
+        return (2, "i" + k[1:], 1)
+    if k[0] == "X":
+        return (3, "l" + k[1:], 1)
+    if k[0] == "f":
+        return (4, k, 0)
+    return "skip"
+
+
+def c08_oracle(script, rec):
+    bad = died(script, rec)
+    al = align(script, rec["impl"])
+    cur = None
+    for op, out in al:
+        f = op.split(" ")
+        if f[0] == "reads":
+            txt = unhx(f[1])
+            lit = txt[4:-1] if txt.startswith(b"a = ") and txt.endswith(b";") else None
+            cur = (lit, out[0] if out else None)
+        elif op == "dump" and cur and cur[0] is not None:
+            lit, r = cur
+            exp = c08_expect(lit)
+            root, _, err, _ = parse_dump(out)
+            if exp == "skip":
+                continue
+            if exp is None:
+                if r == "R i1":
+                    bad.append("literal %r cannot be represented but was accepted (stored %s)" % (
+                        lit, root.kids[0].val if root and root.kids else "?"))
+            else:
+                if r != "R i1":
+                    bad.append("literal %r is representable but the read failed" % lit)
+                elif root and root.kids:
+                    k = root.kids[0]
+                    if (k.ty, k.val, k.fmt) != exp:
+                        bad.append("literal %r stored as type %d value %s format %d; its exact value is type %d value %s format %d" % (
+                            (lit, k.ty, k.val, k.fmt) + exp))
+            cur = None
+    return bad
+
+
+def run_c08(ctx):
+    res = Result()
+    rc = replay_cases(ctx)
+    if rc is not None:
+        cases = rc
+    else:
+        lits = gen_text.literal_spellings(ctx.rng, 400 if ctx.tier == "quick" else 20000)
+        cases = []
+        per = 20
+        for i in range(0, len(lits), per):
+            body = ["init"]
+            for l in lits[i:i + per]:
+                body += ["lex %s" % hx(l), "reads %s" % hx(b"a = " + l + b";"), "dump",
+                         "reads %s" % hx(b"b = [ " + l + b" ];"), "dump"]
+            cases.append("\n".join(body) + "\n")
+        res.distribution["literals"] = len(lits)
+        res.distribution["accepted_by_spec"] = sum(1 for l in lits if isinstance(c08_expect(l), tuple))
+        res.distribution["rejected_by_spec"] = sum(1 for l in lits if c08_expect(l) is None)
+    res.rule = ("boundary spellings: optional sign, leading zeros, octal, 0x/0X with 1..20 digits, L/LL, values at and around "
+                "2^31, 2^32, 2^63, 2^64, 10^19..10^20; floats with up to 800 digits and exponents -400..+400 in both forms, "
+                "ties, denormals, DBL_MAX neighbours; each through libconfig_yylex (token) and config_read_string (named "
+                "setting and array element: type, value bits, format); compared with the model and, model-free, with the "
+                "exact value computed by Python integers / correctly rounded float() (this is also the differential "
+                "validation of the strtod contract)")
+    res.distinct = len(set(cases))
+    res.samples = [cases[0][:400]] if cases else []
+    keep = lambda l: l if l.startswith(("K ", "R ", "T ", "E ")) else None
+    correspond(ctx, res, cases, line_filter=keep, oracle=c08_oracle,
+               known=lambda s, r, o: match_known("C08", s, r, o), per_proc=4)
+    return res
+
+
+REGISTRY["C08"] = dict(module="Properties_C08", run=run_c08)
